@@ -86,4 +86,9 @@ TEXT = {
         "level_text": "Fault enumeration: for each generated file-backed segment and sequence of 3-10 read calls, the fault-free run counts the storage reads; then for every k the segment is loaded afresh and every ReadAt from the k-th on fails. Every call must return (watchdog with goroutine-dump confirmation of a mutex block inside ice), a call that saw a failing read must yield an error, an empty result or the correct result, a call that saw none must be correct, and nothing may panic. About 5*10^4 faulted calls per quick run.",
         "level_note": "Depends on the layout of bluge_segment_api.Data (self-tested); for read sequences longer than 300 reads the first 120 and last 20 fault points are exhaustive and the middle is strided.",
     },
+    "C09": {
+        "technique": "generated concurrent programs under the Go race detector with a sequential twin as oracle; generated nesting programs vs. the reference model",
+        "level_text": "Exploration: (1) hundreds of generated concurrent programs per run - 2-8 goroutines released by a barrier, each a drawn list of read calls on one cold segment (lazy FST loading, stored and doc-value visits, DocsMatchingTerms, persist, a merge using the segment as input) with drawn Gosched points - must return exactly what a twin segment returns sequentially, in a -race binary where any DATA RACE report with an ice frame is a violation; (2) generated nesting programs (reads issued from inside stored-field / doc-value visitor callbacks, depth <= 3, other 128-document blocks) must deliver the model's values. Schedules are sampled, not enumerated.",
+        "level_note": "Not claimed: absence of races on interleavings that did not run; liveness. A schedule-dependent failure cannot be shrunk by rapid; the driver stores the generated program and the race report as the replay artefact.",
+    },
 }
